@@ -273,10 +273,11 @@ Section PrintRun.
   (** C14 at the level of the command, for every readable log and any period:
       feed the standard output of a run of print back as the log file, under
       the same options; the second run succeeds and writes the same bytes.
-      Hypotheses: the number law, and for the days of the period the
-      documented note forms and the line-length limit. *)
+      Hypotheses: the number law, a layout that reads back what it writes
+      ([stable_layout]), and for the days of the period the documented note
+      forms and the line-length limit. *)
   Theorem run_print_twice_log (FS : FmtStable NM) w1 w2 op c data toks L :
-    rc_date c = toks ->
+    rc_date c = toks -> stable_layout toks = true ->
     print_setting w1 op data toks -> read_log NM toks data = Some L ->
     Forall (fun d => Forall (fun mp => documented_note mp = true) (notes_of NM d)) (filter (in_period NM op) L) ->
     Forall (fun d => Forall (fun l => lengthN l < max_token) (day_lines NM c d)) (filter (in_period NM op) L) ->
@@ -284,7 +285,7 @@ Section PrintRun.
     run_log NM w2 op (rep_print NM c) = run_log NM w1 op (rep_print NM c)
     /\ out_status (run_log NM w1 op (rep_print NM c)) = Ok.
   Proof.
-    intros Hc S1 H1 Hn Hl S2. rewrite (run_print_output w1 op c data toks L S1 H1) in *. cbn [out_stdout] in S2.
+    intros Hc Hst S1 H1 Hn Hl S2. rewrite (run_print_output w1 op c data toks L S1 H1) in *. cbn [out_stdout] in S2.
     split; [|reflexivity].
     set (Ls := filter (in_period NM op) L) in *.
     assert (Hsafe : forallb safe_tok toks = true).
@@ -294,7 +295,8 @@ Section PrintRun.
     { destruct Ls as [|d0 Ls0] eqn:ELs; [apply read_log_nil|].
       assert (HLne : L <> []) by (intros ->; discriminate).
       assert (HL : heading_layout (layout_core (rc_date c)) = true) by (rewrite Hc; apply Hlay; assumption).
-      subst toks. apply (print_reads_back_core NM FS c (d0 :: Ls0) Hsafe HL).
+      assert (Hsep : sep_ok toks = true) by (unfold stable_layout in Hst; apply andb_true_iff in Hst; apply Hst).
+      subst toks. apply (print_reads_back_core NM FS c (d0 :: Ls0) Hsafe Hsep HL).
       rewrite <- ELs in *. rewrite Forall_forall in *. intros d Hd.
       assert (HdL : In d L) by (unfold Ls in Hd; apply filter_In in Hd; tauto).
       destruct (Hshape d HdL) as [S1' [S2' [S3' S4']]].
